@@ -161,6 +161,23 @@ impl Sut for LI {
             }
         };
         if cmd.k == "delete" {
+            if mode == 2 {
+                // an index past the end names no element: delete_index must decline (None); if it hands out an
+                // op anyway, the Vec model says nothing may disappear
+                let ix = len + (raw % 3);
+                return match self.delete_index(ix, actor) {
+                    None => None,
+                    Some(op) => {
+                        let want = sh.take_dot(actor);
+                        let mut g = Gen::new(op, format!("delete_index({ix}) on a list of {len}"));
+                        g.want_dot = Some(want);
+                        g.facts.push(Fact::Ins { elem: 0, dot: want });
+                        g.facts.push(Fact::Del { elem: 0, dot: want });
+                        g.expect_seq = Some(model);
+                        Some(g)
+                    }
+                };
+            }
             if len == 0 {
                 return None;
             }
